@@ -154,12 +154,19 @@ def families(quick: bool) -> List[Family]:
     PN = [mp("A", str(ref.NRC), tgt="nrc"), mp("A", "1"), mp("B", str(ref.NRC), tgt="nrc")]
     fams.append(Family("neg-target", [ev(s) for s in shapes(PN, 1, 2)] + [ev([[a], [b]]) for a in PN for b in PN], 2,
                        "ECU variants whose matching parameter targets the NRC parameter of the negative response"))
+    # matching parameters that point into the GLOBAL negative response: inherited (defined in the functional group, reaches the
+    # ECU variant through the base variant) or the candidate's own copy
+    PG = [mp("A", str(ref.GSID), tgt="gsid"), mp("A", "1"), mp("B", str(ref.GSID), tgt="gsid")]
+    gshapes = shapes(PG, 1, 2) + [[[a], [b]] for a in PG for b in PG]
+    fams.append(Family("gnr-target", [ev(s) for s in gshapes] + [dict(ev(s), gnr=True) for s in gshapes], 2,
+                       "ECU variants whose matching parameter targets a parameter that only the GLOBAL-NEG-RESPONSE has; the response is "
+                       "inherited from the functional group or defined again in the candidate"))
     # response layouts x DOP types
     for lay in ref.LAYOUTS:
         for typ in ref.VALUES:
             if quick and lay in ref.EXTRA_LAYOUTS and typ not in QUICK_EXTRA_TYPES:
                 continue  # quick: the extra field arrangements / nested paths / two-response services only for three types
-            if quick and typ in ref.LOWER_CASE_TYPES and lay not in ("top", "struct", "field"):
+            if quick and typ in ref.QUICK_FEW_LAYOUT_TYPES and lay not in ("top", "struct", "field"):
                 continue  # quick: lower-case spelled expected values at an SNREF leaf, in a structure and in a field
             x = f"X_{lay}_{typ}"
             alpha = [mp(x, ref.expected_text(typ, ref.VALUES[typ]["V1"])), mp(x, ref.expected_text(typ, ref.VALUES[typ]["V2"])), mp("A", "1")]
